@@ -62,6 +62,11 @@ def run(prop, tier, seed, replay=None):
             else:
                 c.violation(r, v, extra={'text': chars.dec(r['src']), 'plain': chars.dec(r['plain'])})
     c.extra['excluded_by_statement'] = nexcl
+    if not replay:
+        from checks import scan, total
+        rng = random.Random(seed)
+        extra = [chars.enc(''.join(rng.choice(total.VOCAB) for _ in range(rng.randint(1, 12)))) for _ in range(3000 if q else 30000)]
+        scan.phase(c, tier, [r['src'] for r in ok[:20000]] + extra)
     for r in ok[:3] + ok[-2:]:
         c.sample({'source': chars.dec(r['src']), 'plain': chars.dec(r['plain']), 'map': r['map'], 'verdict': verdicts[r['id']]['c06']})
     c.assumptions = ['the table of Special.tla is the documented one (README "Filter actions" / statement of C06)',
